@@ -113,10 +113,12 @@ void Apbp::SetSemaphore(u16 bits) {
     std::lock_guard lock(impl->semaphore_mutex);
     impl->semaphore |= bits;
     bool new_signal = (impl->semaphore & ~impl->semaphore_mask) != 0;
+    // Update the flag before calling out: the handler may call back into this object (acknowledge, mask),
+    // and its result must not be overwritten with the stale value computed above.
+    impl->semaphore_master_signal = impl->semaphore_master_signal || new_signal;
     if (new_signal && impl->semaphore_handler) {
         impl->semaphore_handler();
     }
-    impl->semaphore_master_signal = impl->semaphore_master_signal || new_signal;
 }
 
 void Apbp::ClearSemaphore(u16 bits) {
@@ -134,10 +136,11 @@ void Apbp::MaskSemaphore(u16 bits) {
     std::lock_guard lock(impl->semaphore_mutex);
     impl->semaphore_mask = bits;
     bool new_signal = (impl->semaphore & ~impl->semaphore_mask) != 0;
-    if (new_signal && !impl->semaphore_master_signal && impl->semaphore_handler) {
+    bool rising = new_signal && !impl->semaphore_master_signal;
+    impl->semaphore_master_signal = new_signal;
+    if (rising && impl->semaphore_handler) {
         impl->semaphore_handler();
     }
-    impl->semaphore_master_signal = new_signal;
 }
 
 u16 Apbp::GetSemaphoreMask() const {
